@@ -10,6 +10,7 @@ package main
 //   slice      slice expression a[i:j] with at least one bound
 //   make       make(T, n...) whose size is not a literal
 //   send       channel send statement
+//   sendsel    channel send that is one alternative of a select statement
 //   close      close(ch)
 //   must       call of a Must* function (panics instead of returning an error)
 //   nilderef   first result of an Iter.Current() call (a *xml.StartElement that
@@ -126,6 +127,14 @@ func (g *gen) c09Sites() {
 				}
 				return true
 			})
+			// sends that are one alternative of a select do not block by themselves
+			inSelect := map[ast.Node]bool{}
+			ast.Inspect(fd.Body, func(n ast.Node) bool {
+				if cc, is := n.(*ast.CommClause); is && cc.Comm != nil {
+					inSelect[cc.Comm] = true
+				}
+				return true
+			})
 			ast.Inspect(fd.Body, func(n ast.Node) bool {
 				switch x := n.(type) {
 				case *ast.TypeAssertExpr:
@@ -141,7 +150,11 @@ func (g *gen) c09Sites() {
 						add("slice", x)
 					}
 				case *ast.SendStmt:
-					add("send", x)
+					if inSelect[x] {
+						add("sendsel", x)
+					} else {
+						add("send", x)
+					}
 				case *ast.CallExpr:
 					switch fun := x.Fun.(type) {
 					case *ast.Ident:
@@ -204,9 +217,9 @@ func (g *gen) c09Sites() {
 		}
 	}
 	g.p("(* ---- partial operations in the sources that parse peer input (property C09) ---- *)\n")
-	g.p("Inductive skind := KAssert | KIndex | KSlice | KMake | KSend | KClose | KMust | KNilDeref | KNilGuard.\n\n")
+	g.p("Inductive skind := KAssert | KIndex | KSlice | KMake | KSend | KSendSel | KClose | KMust | KNilDeref | KNilGuard.\n\n")
 	g.p("Record site := mksite { s_file : bytes; s_func : bytes; s_kind : skind; s_expr : bytes }.\n\n")
-	kinds := map[string]string{"assert": "KAssert", "index": "KIndex", "slice": "KSlice", "make": "KMake", "send": "KSend",
+	kinds := map[string]string{"assert": "KAssert", "index": "KIndex", "slice": "KSlice", "make": "KMake", "send": "KSend", "sendsel": "KSendSel",
 		"close": "KClose", "must": "KMust", "nilderef": "KNilDeref", "nilguard": "KNilGuard"}
 	g.p("Definition generated_files : list bytes := [")
 	for i, f := range c09Files {
